@@ -5,15 +5,16 @@ import NA.Props.C14
 
 The theorems proved for the ASA backend live in `NA.Props.AsaAcl` (convergence of `diffASAACLs`'
 `line N` arithmetic for every merged list, position refinement, well-formed prefix states, resume)
-and `NA.Props.C14` (`routes_covered`).  This file only collects them for the C01 check.
-What is NOT proved for C01: the object-group equalisation, name generation, crypto/VPN objects
-and `deleteUnused` are not modelled in Lean; they are covered by the configuration-level oracle
-(harness/asacfg) only.  See DESIGN.md.
+.  This file only collects them for the C01 check.  The engine-level theorems (object-group
+equalisation, name generation, bindings, routes, `deleteUnused`: `asa_F1_converges`, …) are in
+`NA.Props.F1`, the VPN objects in `NA.Props.Vpn` / `NA.Props.VpnGraph`, the clean-up in `NA.Props.C07`;
+all of them are modules of the C01 check (props/C01.json).  The generic lemma `NA.Route.routes_covered`
+(NA.Props.C14) is applied to the engine's own route plan in `NA.Props.F1` / `NA.Props.F2`.
 -/
 namespace NA.C01
 def obligations : List Lean.Name := [
   ``NA.Acl.asa_plan_converges, ``NA.Acl.asa_pos_refines,
   ``NA.Acl.asa_trace_states_masked, ``NA.Acl.asa_prefix_states_masked,
   ``NA.Acl.asa_resume_converges, ``NA.Acl.asaExec_nodup, ``NA.Acl.cellsOf_sound,
-  ``NA.Acl.asa_plan_converges_script, ``NA.Route.routes_covered]
+  ``NA.Acl.asa_plan_converges_script]
 end NA.C01
